@@ -135,6 +135,9 @@ def run(repo, rep, tier):
     r4 = rep.rule("R6.4", "children instantiated from a template are fresh per slot", floor=6)
     r5 = rep.rule("R6.5", "quantity names are written only on objects fresh out of ed()", floor=14)
 
+    # ---------------------------------------------------------------- R6.6
+    distinct_slots(repo, rep, prims, models)
+
     # ---------------------------------------------------------------- R6.2
     def check_builder(c, f, roots, must_return=True):
         rep.analysed_functions.add(f.construct)
@@ -334,6 +337,65 @@ def run(repo, rep, tier):
                     f"state leaks from one call into the next", stmt=f"mutable default {p} written")
     # ---------------------------------------------------------------- R6.5
     quantity_names(repo, rep, r5, prims, models)
+
+
+def distinct_slots(repo, rep, prims, models):
+    """R6.6: within one function, two different child slots of one object never receive the same object: neither through a
+    chained assignment (`x.a = x.b = v`), nor by storing one slot into another, nor by storing one local twice."""
+    r6 = rep.rule("R6.6", "two child slots of one object never receive the same aggregator object (chained assignment, slot-to-slot store, one local stored twice)", floor=30)
+    slots_of = {c.name: set(models[c.name].slots) | ({models[c.name].template} if models[c.name].template else set()) for c in prims}
+    for c in prims:
+        slots = slots_of[c.name]
+        allslots = set().union(*slots_of.values())
+        for f in c.methods.values():
+            nassign = {}
+            for n in walk_local_stmt(f.node):
+                if isinstance(n, (ast.Assign, ast.AugAssign, ast.For)):
+                    tg = n.targets if isinstance(n, ast.Assign) else [n.target]
+                    for t in tg:
+                        for x in ast.walk(t):
+                            if isinstance(x, ast.Name) and isinstance(x.ctx, ast.Store):
+                                nassign[x.id] = nassign.get(x.id, 0) + 1
+            seen = {}        # (object name, source key) -> (slot, node)
+            for n in walk_local_stmt(f.node):
+                if not isinstance(n, ast.Assign):
+                    continue
+                tslots = [(t.value.id, t.attr) for t in n.targets if isinstance(t, ast.Attribute) and isinstance(t.value, ast.Name) and t.attr in allslots]
+                if not tslots:
+                    continue
+                v = n.value
+                immut = isinstance(v, ast.Constant)
+                rep.analysed_functions.add(f.construct)
+                if len(tslots) >= 2:
+                    ok = immut or len({x for x in tslots}) < 2
+                    r6.ob(ok, f"{f.qualname}: `{norm(n)[:80]}`")
+                    if not ok:
+                        rep.finding("R6.6", f, n, f"the chained assignment `{norm(n)[:100]}` stores ONE object into the child slots "
+                                    f"{[b for a, b in tslots]}: the two sub-aggregators share all mutable state, so filling or merging one changes the other "
+                                    f"(and the cross-reference guard does not see it)", stmt=f"chained store into {sorted(b for a, b in tslots)}")
+                    continue
+                (obj, slot), = tslots
+                key = None
+                if isinstance(v, ast.Name) and nassign.get(v.id, 0) <= 1:
+                    key = ("name", v.id)
+                elif isinstance(v, ast.Attribute) and isinstance(v.value, ast.Name) and v.attr in allslots:
+                    key = ("attr", v.value.id, v.attr)
+                    same_obj = v.value.id == obj and v.attr != slot
+                    r6.ob(not same_obj, f"{f.qualname}: `{norm(n)[:80]}`")
+                    if same_obj:
+                        rep.finding("R6.6", f, n, f"`{norm(n)[:100]}` stores the object of slot `{v.attr}` into slot `{slot}` of the same aggregator: the two "
+                                    f"sub-aggregators are one object", stmt=f"slot {v.attr} stored into slot {slot}")
+                        continue
+                if key is None:
+                    r6.ob(True, f"{f.qualname}: `{norm(n)[:80]}`")
+                    continue
+                prev = seen.get((obj, key))
+                ok = prev is None or prev[0] == slot
+                r6.ob(ok, f"{f.qualname}: `{norm(n)[:80]}`")
+                if not ok:
+                    rep.finding("R6.6", f, n, f"`{norm(v)}` is stored into slot `{slot}` of `{obj}` and was already stored into its slot `{prev[0]}` "
+                                f"(line {prev[1].lineno}): the two sub-aggregators are one object", stmt=f"one object in slots {sorted((slot, prev[0]))}")
+                seen.setdefault((obj, key), (slot, n))
 
 
 def self_slot_sinks(repo, rep, ck, models, c, name, rule, stats):
